@@ -486,6 +486,15 @@ def exhaustive_cases(maxlen):
                         rounds = [dict(events=(ok if (bits >> i) & 1 else fail), draw=[dj, 64], exit=1 if exit_at == i else 0) for i in range(n)]
                         out.append(dict(kind='fake', min=list(mn), max=list(mx), poll=['i', 5], prate=['i', 30], ptimeout=None,
                                         rounds=rounds, default_event=False))
+    # a very long outage: more consecutive attempts without Ready than any floating-point exponent survives (2.0**1024 overflows),
+    # then a Ready, then failures again; and zero delays (min_wait = max_wait = 0, or a draw of exactly 0) with the exit event set
+    long_rounds = [dict(events=fail, draw=[(7 * i) % 64, 64], exit=0) for i in range(1100)] + [dict(events=ok, draw=[1, 64], exit=0)] + \
+                  [dict(events=fail, draw=[63, 64], exit=1 if i == 2 else 0) for i in range(3)]
+    out.append(dict(kind='fake', min=['i', 5], max=['i', 3600], poll=['i', 5], prate=['i', 30], ptimeout=None, rounds=long_rounds, default_event=False))
+    for mn, mx, dj in ((0, 0, 32), (0, 0, 0), (0, 8, 0), (0, 1, 0)):
+        for n in (1, 3):
+            rounds = [dict(events=fail, draw=[dj, 64], exit=1 if i == n - 1 else 0) for i in range(n)]
+            out.append(dict(kind='fake', min=['i', mn], max=['i', mx], poll=['i', 5], prate=['i', 30], ptimeout=None, rounds=rounds, default_event=False))
     # exit before the end of the script: what follows must not be touched
     for n in range(2, min(maxlen, 5) + 1):
         for exit_at in range(n - 1):
